@@ -535,8 +535,14 @@ def opMediator (j : Json) : R Json := do
       pure (MOp.record evs)
     | x => throw s!"unknown mediator op {x}"
   let s0 : MState := { types := ← fldStrs j "types", sources := ← fldStrs j "sources", curSource := ← fldStr j "cur" }
-  let (s, verdicts) := ops.foldl (fun (acc : MState × List Json) op =>
-    let r := mstep ig acc.1 op
+  -- "ignoreFrom": ignore_invalid_events() is called just before the op with this index (mrunF)
+  let ignoreFrom : Option Nat := match j.getObjVal? "ignoreFrom" with
+    | .ok v => (v.getNat?).toOption
+    | _ => none
+  let flagged : List (Bool × MOp) := (List.zip (List.range ops.length) ops).map fun (i, op) =>
+    ((match ignoreFrom with | some k => decide (k ≤ i) | none => ig), op)
+  let (s, verdicts) := flagged.foldl (fun (acc : MState × List Json) op =>
+    let r := mstep op.1 acc.1 op.2
     (r.1, acc.2 ++ [perrJson r.2])) (s0, [])
   let s := mclose s
   let outJson := s.w.out.map fun it => match it with
